@@ -50,7 +50,9 @@ Configs ==
       caching  : BOOLEAN,                \* init-caching mode (credentials by token) or plain credentials
       override : BOOLEAN,                \* SandboxBuilder.SetHandler given
       initHandler : BOOLEAN,             \* init request carries a handler
-      initNames   : BOOLEAN ]            \* init request carries function name and version
+      initNames   : BOOLEAN,             \* init request carries function name and version
+      emptytok    : BOOLEAN ]            \* the session token of the init request is empty: the variable is still set (to the
+                                         \* empty string) by the credentials layer and still shadows the customer's
 
 Union(f, g) == [k \in DOMAIN f \cup DOMAIN g |-> IF k \in DOMAIN g THEN g[k] ELSE f[k]]   \* g wins
 Layer(name, ks) == [k \in ks |-> <<name, k>>]
